@@ -216,6 +216,7 @@ func readerMatrix(pj *simdjson.ParsedJson, want []*ref.Value, o readerOpts) (out
 }
 
 var (
+	readerElemDst  simdjson.Element
 	readerSerDst   *simdjson.ParsedJson
 	readerSerCalls int
 )
@@ -250,7 +251,8 @@ func lookupReader(pj *simdjson.ParsedJson, want []*ref.Value) string {
 				if err != nil {
 					return err
 				}
-				e := ob.FindKey(string(k), nil)
+				// a recycled destination Element (it still describes the previous hit)
+				e := ob.FindKey(string(k), &readerElemDst)
 				if e == nil {
 					d = fmt.Sprintf("FindKey(%q) = nil at %v, member %d has that key", k, l, i)
 					return nil
@@ -288,6 +290,12 @@ func lookupReader(pj *simdjson.ParsedJson, want []*ref.Value) string {
 			ob, _ := it.Object(nil)
 			if e := ob.FindKey("\x00gone", nil); e != nil {
 				d = fmt.Sprintf("FindKey(absent) found %q at %v", e.Name, l)
+				return nil
+			}
+			// nor may a miss hand back the recycled destination with what it held
+			ob, _ = it.Object(nil)
+			if e := ob.FindKey("\x00gone", &readerElemDst); e != nil {
+				d = fmt.Sprintf("FindKey(absent, recycled destination) returned a non-nil element (%q) at %v", e.Name, l)
 				return nil
 			}
 		}
